@@ -608,6 +608,17 @@ func (fx *FuncExec) storeVar(st *State, v *types.Var, val Term) {
 		return
 	}
 	if si := fx.structValInfo(v.Type()); si != nil {
+		if !fx.captured[v] && !fx.addrTaken[v] && st.guard() == "true" {
+			// a struct variable whose address is never taken cannot be aliased: assigning
+			// to it rebinds the variable to a fresh copy (no in-place write, so immutable
+			// fields of the previous value are not touched)
+			if val.Fresh {
+				st.vars[k] = val.S
+			} else {
+				st.vars[k] = fx.copyStruct(st, val.S, si, true)
+			}
+			return
+		}
 		fx.copyInto(st, st.vars[k], val.S, si, false)
 		return
 	}
